@@ -158,7 +158,7 @@ class VariantRefBase : public VariantTag {
     if (key.template is<size_t>())
       remove(key.template as<size_t>());
     else
-      remove(key.template as<const char*>());
+      remove(key.template as<JsonString>());
   }
 
   // Gets or sets an array element.
@@ -207,7 +207,7 @@ class VariantRefBase : public VariantTag {
     if (key.template is<size_t>())
       return operator[](key.template as<size_t>());
     else
-      return operator[](key.template as<const char*>());
+      return operator[](key.template as<JsonString>());
   }
 
   // DEPRECATED: use add<JsonVariant>() instead
